@@ -111,6 +111,10 @@ def run(prog: Program, rep: Report, tier: str) -> None:
     ]
     rep.assumptions += ["the datagram passed the gate (>= 159 bytes), so fixed-offset slices have their written width"]
     spec = load_spec()
+    rep.rule("R5.9", "structural: no function reachable from the datagram builder declares a global or mutates / stores into a module-level name (the device handed over would describe an earlier broadcast)", 1, structural=True)
+    from .c07 import module_state_on_receive_path
+    ms_ = module_state_on_receive_path(prog)
+    rep.check(not ms_, "R5.9", "no module-level state on the receive path", "src/aioswitcher/bridge.py", f"{ms_[:3]}: fields of the delivered device can come from an earlier broadcast instead of this one", key="R5.9|module-state")
     derived = check_getters(prog, rep, spec, "R5.1", "aioswitcher.bridge:DatagramParser", "message", MSG, 159)
     rep.sample({"getter_terms": {g: T.show(v)[:200] for g, v in list(derived.items())[:8]}})
     helper_forms(prog, rep)
